@@ -234,7 +234,7 @@ pub fn record(mode: &str, seed: u64, n: usize, out: &mut Out) {
             for i in 0..n {
                 let big = if i % 50 == 49 { 3000 } else if i % 10 == 9 { 300 } else { 30 };
                 let max_args = if i % 97 == 96 { 255 } else if i % 7 == 6 { 12 } else { 4 };
-                let m = if i % 60 == 31 { gen::boundary_message(&mut r, None) } else { gen::message(&mut r, &MsgOpts { storage: None, big, max_args }) };
+                let m = if i % 60 == 31 { gen::boundary_message(&mut r, None) } else if i % 12 == 5 { gen::medium_message(&mut r, None) } else { gen::message(&mut r, &MsgOpts { storage: None, big, max_args }) };
                 let sh = m.storage_header.is_some();
                 let b = gen::ser(&m);
                 let mut sfx = suffixes(&mut r, sh);
@@ -254,7 +254,7 @@ pub fn record(mode: &str, seed: u64, n: usize, out: &mut Out) {
         "mut" => {
             for i in 0..n {
                 let big = if i % 40 == 39 { 1000 } else { 24 };
-                let m = if i % 150 == 77 { gen::boundary_message(&mut r, None) } else { gen::message(&mut r, &MsgOpts { storage: None, big, max_args: 3 }) };
+                let m = if i % 150 == 77 { gen::boundary_message(&mut r, None) } else if i % 12 == 5 { gen::medium_message(&mut r, None) } else { gen::message(&mut r, &MsgOpts { storage: None, big, max_args: 3 }) };
                 let sh = m.storage_header.is_some();
                 let b = gen::ser(&m);
                 out.emit(json!({"op": "enc", "m": proj::message(&m), "bytes": proj::bytes(&b)}), true);
@@ -262,6 +262,17 @@ pub fn record(mode: &str, seed: u64, n: usize, out: &mut Out) {
                     out.calls += 1;
                     out.emit(parse_event(&b, None, sh), true);
                     continue;
+                }
+                if i % 100 == 3 && !b.is_empty() {
+                    // the message at the head of a buffer of 64 KiB and more: total length congruent to 0, 1, len - 1 modulo 65536
+                    for rem in [0usize, 1, b.len() - 1] {
+                        let total = 65536 * (1 + r.below(2) as usize) + rem;
+                        let mut x = b.clone();
+                        let fill = *r.pick(&[0u8, 0x20, 0xFF]);
+                        x.resize(total, fill);
+                        out.calls += 1;
+                        out.emit(parse_event(&x, None, sh), true);
+                    }
                 }
                 for _ in 0..3 {
                     let mut x = gen::mutate(&mut r, &b, sh);
@@ -364,10 +375,15 @@ pub fn record(mode: &str, seed: u64, n: usize, out: &mut Out) {
         "stable" => {
             for i in 0..n {
                 let big = if i % 40 == 39 { 1000 } else { 24 };
-                let m = if i % 120 == 59 { gen::boundary_message(&mut r, None) } else { gen::message(&mut r, &MsgOpts { storage: None, big, max_args: 3 }) };
+                let m = if i % 120 == 59 { gen::boundary_message(&mut r, None) } else if i % 12 == 5 { gen::medium_message(&mut r, None) } else { gen::message(&mut r, &MsgOpts { storage: None, big, max_args: 3 }) };
                 let sh = m.storage_header.is_some();
                 let b = gen::ser(&m); if b.is_empty() { continue; }
                 let mut cands = vec![(b.clone(), sh)];
+                if i % 6 == 1 {
+                    // bytes that do not come from the crate's writer
+                    let n = *r.pick(&[0usize, 1, 127, 128, 253, 254, 255, 256, 257, 300, 1000, 4000]);
+                    cands.push((gen::handmade_text_message(&mut r, n, sh), sh));
+                }
                 if b.len() > 20000 {
                     if let Some(pm) = item_of(&b, sh) { out.calls += 4; out.emit(stable_event(&pm, sh), true); }
                     continue;
@@ -414,6 +430,19 @@ pub fn record(mode: &str, seed: u64, n: usize, out: &mut Out) {
         }
         // C06: storage-header search, junk in front of a message, junk between the messages of a stream
         "junk" => {
+            {
+                // junk ++ message filling a buffer of k x 64 KiB + {0, 7, 15} bytes exactly (lengths that wrap to 0..15 in 16 bits)
+                let m = gen::message(&mut r, &MsgOpts { storage: Some(true), big: 8, max_args: 1 });
+                let b = gen::ser(&m);
+                if !b.is_empty() {
+                    for rem in [0usize, 7, 15] {
+                        let total = 65536 * (1 + r.below(2) as usize) + rem;
+                        let junk: Vec<u8> = (0..total - b.len()).map(|i| [b'x', 0u8, b'L', 0xFE][(i / 7) % 4]).collect();
+                        out.calls += 2;
+                        out.emit(junkparse_event(&junk, &b, &[], None), true);
+                    }
+                }
+            }
             {
                 // very long pattern-free junk (one repeated byte): beyond one reader buffer (10 MiB) in front of a message, and
                 // beyond 2^32 bytes in front of the pattern (the count is a 64-bit number)
@@ -829,6 +858,16 @@ pub fn hostile_inputs(r: &mut Rng, big: usize) -> Vec<(Vec<u8>, bool)> {
             let mut x = b.clone();
             x[o + std] = msin;
             v.push((x, sh));
+        }
+    }
+    // message type x declared length: control and non-verbose types with a payload of 0..5 bytes
+    if htyp & 1 == 1 {
+        for msin in [0x06u8, 0x16, 0x26, 0x07, 0x00, 0x40, 0x02, 0x04] {
+            for extra in [0usize, 1, 3, 4, 5] {
+                let mut x = b.clone();
+                x[o + std] = msin;
+                if x.len() > o + 3 { set_len(&mut x, hdrs + extra); v.push((x, sh)); }
+            }
         }
     }
     // every 16-bit length field of an argument at its extremes (string / raw length, name and unit lengths of variable info),
